@@ -66,6 +66,17 @@ def build(case):
     elif kind == 'pause-before':
         pol['pause-before'] = True if st == 'literal' else '<% $.ff %>'
         inp['ff'] = True
+    elif kind == 'combo':
+        # several policies on one task; the oracle is the union of the
+        # individual bounds (nothing is said about their interplay beyond
+        # that)
+        pol['retry'] = {'count': v, 'delay': case['delay']}
+        if case['wb']:
+            pol['wait-before'] = case['wb']
+        if case['wa']:
+            pol['wait-after'] = case['wa']
+        if case['big_timeout']:
+            pol['timeout'] = 500
     t = {'action': 'verif.async_act' if case['async'] else 'verif.act',
          'input': {'t': 't'}, 'on-success': ['e'], 'publish': {'r': 'r#t'}}
     wf = {'input': sorted(inp), 'tasks': {}}
@@ -94,7 +105,8 @@ def cases(seed, tier):
     for i in range(n):
         prng = random.Random(rng.getrandbits(64))
         kind = ['retry', 'retry', 'wait-before', 'wait-after', 'timeout',
-                'timeout', 'fail-on', 'pause-before'][i % 8]
+                'timeout', 'fail-on', 'pause-before', 'combo',
+                'combo'][i % 10]
         c = {'kind': kind,
              'style': prng.choice(['literal', 'literal', 'yaql', 'jinja']),
              'defaults': prng.random() < 0.25,
@@ -118,6 +130,18 @@ def cases(seed, tier):
             c['cont'] = prng.random() < 0.5
         elif kind in ('wait-before', 'wait-after'):
             c['value'] = prng.randint(0, 3)
+        elif kind == 'combo':
+            c['value'] = prng.randint(0, 3)
+            c['delay'] = prng.randint(0, 2)
+            c['seq'] = [prng.choice(['err', 'err', 'ok'])
+                        for _ in range(c['value'] + 2)]
+            c['use_brk'] = c['use_cont'] = False
+            c['brk'] = c['cont'] = False
+            c['wb'] = prng.choice([0, 1, 2])
+            c['wa'] = prng.choice([0, 1, 2])
+            c['big_timeout'] = prng.random() < 0.5
+            if not (c['wb'] or c['wa'] or c['big_timeout']):
+                c['wb'] = 1
         elif kind == 'timeout':
             c['value'] = prng.randint(1, 3)
             c['async'] = True
@@ -153,7 +177,7 @@ def run_case(case):
     text, inp = build(case)
     kind = case['kind']
     outcomes = []
-    if kind == 'retry':
+    if kind in ('retry', 'combo'):
         for a, o in enumerate(case['seq']):
             outcomes.append({'t': 't', 'attempt': a + 1,
                              'outcome': ['ok', 'v%d' % a] if o == 'ok'
@@ -208,11 +232,14 @@ def run_case(case):
     res['interleavings'].append(run.ihash)
     if run.inconclusive:
         res['inconclusive'] = run.inconclusive
+        if case.get('_trace'):
+            res['trace'] = ec.trace_lines(run)
         return res
     desc = {k: case.get(k) for k in ('kind', 'style', 'defaults', 'join',
                                      'async', 'value', 'delay', 'seq',
                                      'use_brk', 'use_cont', 'brk', 'cont',
-                                     'ff', 'late')}
+                                     'ff', 'late', 'wb', 'wa',
+                                     'big_timeout')}
     for v in run.violations:
         if v.get('mech') == 'stuck' and kind == 'timeout':
             continue
@@ -245,7 +272,7 @@ def run_case(case):
                 (ev['before'] is None or
                  ev['before']['state'] not in TERMINAL):
             act_done[ev['id']] = ev['vt']
-    if kind == 'retry':
+    if kind in ('retry', 'combo'):
         want_n, want_state = expected_attempts(case)
         if len(runs) != want_n:
             viol('retry-attempts',
@@ -268,6 +295,31 @@ def run_case(case):
                      'attempt at t=%s only %ss after the previous one ended '
                      '(t=%s), delay %s' % (b['vt'], b['vt'] - end, end,
                                            case['delay']))
+    if kind == 'combo':
+        if case['wb'] and runs and int(runs[0]['vt']) - created < \
+                case['wb']:
+            viol('wait-before-early',
+                 'wait-before %s (with retry): created at t=%s, started at '
+                 't=%s' % (case['wb'], created, runs[0]['vt']))
+        if t['state'] == 'SUCCESS' and not erow:
+            viol('wait-after-lost', 'retry + wait-after %s: the successor '
+                 'was never created' % case['wa'])
+        if t['state'] != 'SUCCESS' and erow:
+            viol('successor-after-error', 'the successor ran although the '
+                 'task ended %s' % t['state'])
+        if case['wa'] and erow and runs:
+            e_created = [ev['vt'] for ev in evs if ev['kind'] == 'ROW' and
+                         ev['table'] == 'task' and ev['id'] == erow[0]['id']
+                         and ev['before'] is None][0]
+            done = act_done.get(runs[-1]['action_ex_id'])
+            if done is not None and int(e_created) - int(done) < case['wa']:
+                viol('wait-after-early',
+                     'wait-after %s (with retry): last attempt finished at '
+                     't=%s, successor created at t=%s' % (
+                         case['wa'], done, e_created))
+        if 'timed out' in (t.get('state_info') or '').lower():
+            viol('timeout-touched-finished-task',
+                 'timeout 500 fired on a task that completed long before')
     elif kind == 'wait-before':
         if not runs:
             viol('wait-before-lost', 'wait-before %s: the task never '
